@@ -96,7 +96,7 @@ def judge(K, specs, sig, args, res, consts=None):
                 bad.append(('assigns', 'assigns ' + ', '.join(K.assigns_), '%s[%d] changed from %r to %r' % (p, i, x, y)))
                 break
     post = ConcEnv(specs, vars, fin_mem, None, entry, res['ret'], ghosts, None, consts)
-    for e in K.ensures_:
+    for e in list(K.ensures_) + list(K.bounded_):
         try:
             ok = post.truth(e)
         except (IndexError, ContractError, ZeroDivisionError, OverflowError, ValueError) as ex:
